@@ -5,29 +5,48 @@ import numpy as np
 from common import *
 
 ID = 'C20'
-COQ_FILES = ['Base/Mat.v', 'Base/ListX.v', 'Model/Generators.v', 'Proofs/GeneratorsBase.v', 'Proofs/Generators.v',
-             'Proofs/GeneratorsRing.v', 'Proofs/GeneratorsDeg.v', 'Proofs/GeneratorsTemplate.v', 'Properties/C20.v']
+COQ_FILES = ['Base/Mat.v', 'Base/ListX.v', 'Base/SumQ.v', 'Model/Generators.v', 'Model/GeneratorsExt.v',
+             'Proofs/GeneratorsBase.v', 'Proofs/Generators.v', 'Proofs/GeneratorsRing.v', 'Proofs/GeneratorsDeg.v',
+             'Proofs/GeneratorsTemplate.v', 'Proofs/GeneratorsProfile.v', 'Proofs/GeneratorsDomain.v',
+             'Proofs/GeneratorsRepair.v', 'Proofs/GeneratorsLive.v', 'Properties/C20.v']
 THEOREMS = ['C20_makerand_dir_count', 'C20_makerand_und_sym_count', 'C20_ringlattice_bands', 'C20_ringlattice_feasible_returns',
             'C20_toeplitz_exact_K', 'C20_fractal_count', 'C20_even_count', 'C20_even_clusters_only',
             'C20_degfixed_rowcol', 'C20_degfixed_invariant', 'C20_upper_cells', 'C20_template_levels',
-            'C20_even_clusters_blocks', 'C20_fractal_clusters_blocks']
+            'C20_even_clusters_blocks', 'C20_fractal_clusters_blocks',
+            'C20_toeplitz_template_shape', 'C20_toeplitz_template_sum', 'C20_toeplitz_profile_exact_K',
+            'C20_toeplitz_first_accepted', 'C20_toeplitz_raise_justified', 'C20_even_exact_K_refuted',
+            'C20_makerand_signed_K', 'C20_even_signed_K', 'C20_ring_negative_K', 'C20_ringlattice_infeasible_K_refuted',
+            'C20_degfixed_raise_justified', 'C20_degfixed_raised', 'C20_degfixed_repair_not_raised',
+            'C20_toeplitz_feasible_stream']
 RULE = ('every (N,K) with N<=8 and K feasible (0..N^2-N directed, 0..N(N-1)/2 undirected) for makerandCIJ_dir/_und and '
-        'makeringlatticeCIJ, 3 (thorough 10) seeds each; makeevenCIJ for N in '
-        '{4,8} (16 thorough), every cluster size, every K in 0..N^2-N (including K below the cluster cells: the documented '
-        'clusters-only branch); makefractalCIJ for mx_lvl in {2,3} (4 thorough), E in {1,2,3,5}, every cluster size; '
-        'maketoeplitzCIJ for N=3..8, s in {1,2,4}, K up to about a third of the cells; makerandCIJdegreesfixed on the '
-        'in/out degree sequences of random digraphs N=2..8 at densities .15-.7 (graphical by construction). The draws of '
+        'makeringlatticeCIJ, 3 (thorough 10) seeds each, plus a sparse slice N in {9..12,16,33,40} (K in {0,1,band-1,band,band+1,'
+        'middle,max-1,max}) and N in {130,150} (ring fully replayed, dir/und with the K-prefix of the permutation); makeevenCIJ for N in '
+        '{4,8,16} (32 thorough), every cluster size, every K in 0..N^2-N at N<=8 (a slice above), 3 (10) seeds; makefractalCIJ for '
+        'mx_lvl in {2,3} (4 thorough), E in {1,2,3,5,1.5,0.5}, every cluster size; maketoeplitzCIJ for N=2..12 and {16,24,40}, '
+        's in {0.5,1,2,4,8}, K over the whole range for which the rejection loop still terminates, three forced-raise runs '
+        '(10001 recorded draws each; two replayed in quick, all in thorough, the direct oracle on all); makerandCIJdegreesfixed on the in/out degree sequences of random digraphs '
+        'N=2..8 at densities .15-.7, sparse digraphs N=9..40 and N=150 (graphical by construction). Out-of-domain slice '
+        '(K<0, K>cells, infeasible ring K, N not a power of two, sz_cl<=0 or >mx, mx_lvl<2, sum(inv)!=sum(outv), '
+        'len(outv)<len(inv)): model and code must still agree (correspondence only, no property oracle). The draws of '
         'each call are recorded with common.Rec and replayed into the extracted model: outputs must be IDENTICAL. '
         'non-trivial = K>0 (at least one connection requested); distinct by hash of (function, parameters, seed)')
 ASSUMES = ['rng.permutation(m) returns a permutation of 0..m-1, rng.randint(k) a value in [0,k), rng.random_sample values in [0,1) '
-           '(hypotheses of the theorems; checked on every recorded stream)',
-           'maketoeplitzCIJ: the scaled Gaussian profile (scipy.stats.norm.pdf, toeplitz, k/sum) and makefractalCIJ: the floats '
-           '1/E**e are numeric kernels handed to the model as exact rationals of the computed doubles (the theorems hold for ANY profile)',
-           'infeasible K (K > number of admissible cells, K < 0), N not a power of two for the hierarchical generators, mx_lvl < 2 and '
-           'non-graphical degree pairs are outside the documented domain and are not exercised as violations']
+           '(hypotheses of the theorems; checked on every recorded stream of every generator)',
+           'maketoeplitzCIJ: scipy.stats.norm.pdf is a numeric kernel (an arbitrary function pf of the distance in the theorems); '
+           'the template the code really builds is captured (proxy around scipy.linalg.toeplitz) and must be the Toeplitz matrix of '
+           '(0, pf) scaled in place; the rounded product pf*(K/sum) is compared with the exact model within 1e-9, the replay uses the '
+           'captured doubles as exact rationals. makefractalCIJ: the floats 1/E**e are handed to the model as exact rationals '
+           '(the theorems hold for ANY values)',
+           'outside the documented domain (property quantifier: feasible K, powers of two, graphical pairs): K > number of admissible '
+           'cells, K < 0, K below the cluster cells of makeevenCIJ (documented warning branch), N not a power of two, sz_cl <= 0 or '
+           '> log2 N, mx_lvl < 2, E = 0, degree lists of different sum or length. The model mirrors the code there and both are run '
+           '(family ood:*), but nothing there counts as a violation of C20']
 TRUSTED = ['makerandCIJdegreesfixed may raise BCTParamError on a graphical pair when the repair loop has tried every stub '
            '(documented: "not guaranteed to terminate"); such runs are counted (degfixed:unresolved), replayed in the model '
-           '(which must also report Raised) and are not violations: the theorem is about runs that return']
+           '(which must also report Raised; C20_degfixed_raise_justified: then every stub had an occupied target cell) and are '
+           'not violations: the theorem is about runs that return',
+           'maketoeplitzCIJ may raise BCTParamError after 10000 rejected samples (C20_toeplitz_raise_justified); the harness '
+           'checks on the recorded stream that really 10001 draws were made and the first 10000 were all rejected']
 
 
 def quiet(f, *a, **k):
@@ -58,8 +77,97 @@ def enc_qb(x):
     return '%s/%s' % (bin(f.numerator) if f.numerator else '0', bin(f.denominator))
 
 
+def enc_f(x):
+    """binary64 -> exact rational token (fast path of enc_qb(fq(x)))"""
+    a, b = float(x).as_integer_ratio()
+    return '%s/%s' % (bin(a) if a else '0', bin(b))
+
+
 def blen(x):
     return int(x).bit_length()
+
+
+class RecA(Rec):
+    """Rec that keeps random_sample draws as arrays (the toeplitz exception path records 10001 of them)"""
+
+    def random_sample(self, *a, **k):
+        r = np.random.RandomState.random_sample(self, *a, **k)
+        self.log.append(('random_sample', a, k, r))
+        return r
+
+
+class NpProxy:
+    """stands in for the module global `np` of bct.algorithms.reference during one call: records every array np.ones
+    returns (the hierarchical template of makeevenCIJ / makefractalCIJ is one of them, updated in place)"""
+
+    def __init__(self, real):
+        self._real = real
+        self.ones_log = []
+
+    def __getattr__(self, name):
+        return getattr(self._real, name)
+
+    def ones(self, *a, **k):
+        r = self._real.ones(*a, **k)
+        self.ones_log.append(r)
+        return r
+
+
+def with_np_proxy(f, *a, **k):
+    g = f.__globals__
+    real = g.get('np')
+    px = NpProxy(real)
+    g['np'] = px
+    try:
+        return quiet(f, *a, **k), px
+    finally:
+        g['np'] = real
+
+
+def captured_template(px, n):
+    """the first n x n array np.ones produced: created in the last loop iteration and modified in place up to
+    `CIJ -= ones + mx_lvl*eye`; later n x n products of np.ones are temporaries that stay all-ones"""
+    for A in px.ones_log:
+        if getattr(A, 'shape', None) == (n, n):
+            return A
+    return None
+
+
+class ScipyCapture:
+    """records what scipy.stats.norm.pdf and scipy.linalg.toeplitz return inside maketoeplitzCIJ; the array toeplitz
+    returns is the very object the code scales in place and compares the samples with"""
+
+    def __enter__(self):
+        from scipy import linalg, stats
+        self.linalg, self.stats = linalg, stats
+        self.pdf, self.tpl, self.unscaled = [], [], []
+        self._t = linalg.toeplitz
+        self._had = 'pdf' in vars(stats.norm)
+        self._p = stats.norm.pdf
+
+        def toeplitz(*a, **k):
+            r = self._t(*a, **k)
+            self.tpl.append(r); self.unscaled.append(np.array(r, copy=True))
+            return r
+
+        def pdf(x, *a, **k):
+            r = self._p(x, *a, **k)
+            self.pdf.append(np.array(r, copy=True))
+            return r
+        linalg.toeplitz = toeplitz
+        stats.norm.pdf = pdf
+        return self
+
+    def __exit__(self, *exc):
+        self.linalg.toeplitz = self._t
+        if self._had:
+            self.stats.norm.pdf = self._p
+        else:
+            try:
+                del self.stats.norm.pdf
+            except AttributeError:
+                pass
+        return False
 
 
 def run(ctx):
@@ -72,196 +180,376 @@ def run(ctx):
     def seeds(k=nseeds):
         return [int(r.randint(1 << 30)) for _ in range(k)]
 
+    def ringD(n):
+        return np.array([[min((i - j) % n, (j - i) % n) for j in range(n)] for i in range(n)]).reshape(n, n)
+
     # ------------------------------------------------------------ makerandCIJ_dir / _und / ring lattice
+    def one_dir(n, K, sd, prefix=False):
+        rec = Rec(sd)
+        C = call(bct.makerandCIJ_dir, n, K, seed=rec, _t=30.0)
+        case = {'fn': 'makerandCIJ_dir', 'n': n, 'k': K, 'seed': sd}
+        ctx.case(case, nontrivial=K > 0); ctx.count('rand_dir:n=%d' % n if n <= 8 else 'rand_dir:n>8')
+        ok = ctx.check(C.shape == (n, n), 'makerandCIJ_dir:shape', 'not N x N', case)
+        if ok:
+            ctx.check(is01(C), 'makerandCIJ_dir:binary', 'entries outside {0,1}', case)
+            ctx.check(int(C.sum()) == K, 'makerandCIJ_dir:count', '%d connections instead of %d' % (int(C.sum()), K), case)
+            ctx.check(not np.any(np.diag(C)), 'makerandCIJ_dir:diagonal', 'diagonal not empty', case)
+        rp = [e[3] for e in rec.log if e[0] == 'permutation']
+        if len(rp) == 1 and perm_ok(rp[0], n * n - n):
+            lines.append('rand_dir %d %d %s' % (n, K, enc_list(rp[0][:K] if prefix else rp[0]))); pend.append(('mat', 'makerandCIJ_dir', case, C))
+        else:
+            ctx.mismatch('makerandCIJ_dir:stream', 'expected exactly one permutation(n^2-n) draw', case, None, [len(x) for x in rp])
+
+    def one_und(n, K, sd, prefix=False):
+        rec = Rec(sd)
+        C = call(bct.makerandCIJ_und, n, K, seed=rec, _t=30.0)
+        case = {'fn': 'makerandCIJ_und', 'n': n, 'k': K, 'seed': sd}
+        ctx.case(case, nontrivial=K > 0); ctx.count('rand_und:n=%d' % n if n <= 8 else 'rand_und:n>8')
+        ok = ctx.check(C.shape == (n, n), 'makerandCIJ_und:shape', 'not N x N', case)
+        if ok:
+            ctx.check(is01(C), 'makerandCIJ_und:binary', 'entries outside {0,1}', case)
+            ctx.check(np.array_equal(C, C.T), 'makerandCIJ_und:symmetric', 'not symmetric', case)
+            ctx.check(int(np.triu(C, 1).sum()) == K and int(C.sum()) == 2 * K, 'makerandCIJ_und:count',
+                      '%d undirected connections (%d entries) instead of %d (%d)' % (int(np.triu(C, 1).sum()), int(C.sum()), K, 2 * K), case)
+            ctx.check(not np.any(np.diag(C)), 'makerandCIJ_und:diagonal', 'diagonal not empty', case)
+        rp = [e[3] for e in rec.log if e[0] == 'permutation']
+        if len(rp) == 1 and perm_ok(rp[0], (n * n - n) // 2):
+            lines.append('rand_und %d %d %s' % (n, K, enc_list(rp[0][:K] if prefix else rp[0]))); pend.append(('mat', 'makerandCIJ_und', case, C))
+        else:
+            ctx.mismatch('makerandCIJ_und:stream', 'expected exactly one permutation(n(n-1)/2) draw', case)
+
+    def one_ring(n, K, sd, D=None):
+        rec = Rec(sd)
+        case = {'fn': 'makeringlatticeCIJ', 'n': n, 'k': K, 'seed': sd}
+        ctx.case(case, nontrivial=K > 0); ctx.count('ring:n=%d' % n if n <= 8 else 'ring:n>8')
+        try:
+            C = call(bct.makeringlatticeCIJ, n, K, seed=rec, _t=30.0)
+        except Exception as e:
+            ctx.fail('makeringlatticeCIJ:raises', 'raised %r on a feasible K' % (e,), case)
+            return
+        D = ringD(n) if D is None else D
+        ok = ctx.check(C.shape == (n, n), 'makeringlatticeCIJ:shape', 'not N x N', case)
+        # number of bands needed for K cells and the size of the outermost one (independent of the code)
+        c = 0
+        while K > 0 and int(((D >= 1) & (D <= c)).sum()) < K:
+            c += 1
+        if ok:
+            ctx.check(is01(C), 'makeringlatticeCIJ:binary', 'entries outside {0,1}', case)
+            ctx.check(int(C.sum()) == K, 'makeringlatticeCIJ:count', '%d connections instead of %d' % (int(C.sum()), K), case)
+            ctx.check(not np.any(np.diag(C)), 'makeringlatticeCIJ:diagonal', 'diagonal not empty', case)
+            if K > 0 and np.any(C):
+                dmax = int(D[C != 0].max())
+                full = all(np.all(C[D == b] == 1) for b in range(1, dmax))
+                ctx.check(full, 'makeringlatticeCIJ:bands', 'a band nearer than the outermost used band (ring distance %d) is not full' % dmax, case)
+                ctx.check(dmax <= c, 'makeringlatticeCIJ:bands', 'ring distance %d used although %d bands hold K cells' % (dmax, c), case)
+                ctx.count('ring:partial_last_band' if not np.all(C[D == dmax] == 1) else 'ring:full_last_band')
+        rp = [e[3] for e in rec.log if e[0] == 'permutation']
+        if len(rp) <= 1:
+            if rp:
+                ctx.check(perm_ok(rp[0], int((D == c).sum())), 'stream:permutation',
+                          'ring: the draw is not a permutation of the %d cells of the outermost band' % int((D == c).sum()), case)
+            lines.append('ring %d %d %s' % (n, K, enc_list(rp[0] if rp else []))); pend.append(('optmat', 'makeringlatticeCIJ', case, C))
+        else:
+            ctx.mismatch('makeringlatticeCIJ:stream', 'more than one permutation draw', case)
+
     for n in range(1, 9):
+        D = ringD(n)
         for K in range(0, n * n - n + 1):
             for sd in seeds():
-                # ---- directed
-                rec = Rec(sd)
-                C = call(bct.makerandCIJ_dir, n, K, seed=rec)
-                case = {'fn': 'makerandCIJ_dir', 'n': n, 'k': K, 'seed': sd}
-                ctx.case(case, nontrivial=K > 0); ctx.count('rand_dir:n=%d' % n)
-                ok = ctx.check(C.shape == (n, n), 'makerandCIJ_dir:shape', 'not N x N', case)
-                if ok:
-                    ctx.check(is01(C), 'makerandCIJ_dir:binary', 'entries outside {0,1}', case)
-                    ctx.check(int(C.sum()) == K, 'makerandCIJ_dir:count', '%d connections instead of %d' % (int(C.sum()), K), case)
-                    ctx.check(not np.any(np.diag(C)), 'makerandCIJ_dir:diagonal', 'diagonal not empty', case)
-                rp = [e[3] for e in rec.log if e[0] == 'permutation']
-                if len(rp) == 1 and perm_ok(rp[0], n * n - n):
-                    lines.append('rand_dir %d %d %s' % (n, K, enc_list(rp[0]))); pend.append(('mat', 'makerandCIJ_dir', case, C))
-                else:
-                    ctx.mismatch('makerandCIJ_dir:stream', 'expected exactly one permutation(n^2-n) draw', case, None, [len(x) for x in rp])
-                # ---- ring lattice
-                rec = Rec(sd)
-                case = {'fn': 'makeringlatticeCIJ', 'n': n, 'k': K, 'seed': sd}
-                ctx.case(case, nontrivial=K > 0); ctx.count('ring:n=%d' % n)
-                try:
-                    C = call(bct.makeringlatticeCIJ, n, K, seed=rec)
-                except Exception as e:
-                    ctx.fail('makeringlatticeCIJ:raises', 'raised %r on a feasible K' % (e,), case)
-                    C = None
-                if C is not None:
-                    ok = ctx.check(C.shape == (n, n), 'makeringlatticeCIJ:shape', 'not N x N', case)
-                    if ok:
-                        ctx.check(is01(C), 'makeringlatticeCIJ:binary', 'entries outside {0,1}', case)
-                        ctx.check(int(C.sum()) == K, 'makeringlatticeCIJ:count', '%d connections instead of %d' % (int(C.sum()), K), case)
-                        ctx.check(not np.any(np.diag(C)), 'makeringlatticeCIJ:diagonal', 'diagonal not empty', case)
-                        D = np.array([[min((i - j) % n, (j - i) % n) for j in range(n)] for i in range(n)])
-                        if K > 0 and np.any(C):
-                            dmax = int(D[C != 0].max())
-                            full = all(np.all(C[D == b] == 1) for b in range(1, dmax))
-                            ctx.check(full, 'makeringlatticeCIJ:bands', 'a band nearer than the outermost used band (ring distance %d) is not full' % dmax, case)
-                            ctx.count('ring:partial_last_band' if not np.all(C[D == dmax] == 1) else 'ring:full_last_band')
-                    rp = [e[3] for e in rec.log if e[0] == 'permutation']
-                    if len(rp) <= 1:
-                        lines.append('ring %d %d %s' % (n, K, enc_list(rp[0] if rp else []))); pend.append(('optmat', 'makeringlatticeCIJ', case, C))
-                    else:
-                        ctx.mismatch('makeringlatticeCIJ:stream', 'more than one permutation draw', case)
-                # ---- undirected
+                one_dir(n, K, sd)
+                one_ring(n, K, sd, D)
                 if K <= (n * n - n) // 2:
-                    rec = Rec(sd)
-                    C = call(bct.makerandCIJ_und, n, K, seed=rec)
-                    case = {'fn': 'makerandCIJ_und', 'n': n, 'k': K, 'seed': sd}
-                    ctx.case(case, nontrivial=K > 0); ctx.count('rand_und:n=%d' % n)
-                    ok = ctx.check(C.shape == (n, n), 'makerandCIJ_und:shape', 'not N x N', case)
-                    if ok:
-                        ctx.check(is01(C), 'makerandCIJ_und:binary', 'entries outside {0,1}', case)
-                        ctx.check(np.array_equal(C, C.T), 'makerandCIJ_und:symmetric', 'not symmetric', case)
-                        ctx.check(int(np.triu(C, 1).sum()) == K and int(C.sum()) == 2 * K, 'makerandCIJ_und:count',
-                                  '%d undirected connections (%d entries) instead of %d (%d)' % (int(np.triu(C, 1).sum()), int(C.sum()), K, 2 * K), case)
-                        ctx.check(not np.any(np.diag(C)), 'makerandCIJ_und:diagonal', 'diagonal not empty', case)
-                    rp = [e[3] for e in rec.log if e[0] == 'permutation']
-                    if len(rp) == 1 and perm_ok(rp[0], (n * n - n) // 2):
-                        lines.append('rand_und %d %d %s' % (n, K, enc_list(rp[0]))); pend.append(('mat', 'makerandCIJ_und', case, C))
-                    else:
-                        ctx.mismatch('makerandCIJ_und:stream', 'expected exactly one permutation(n(n-1)/2) draw', case)
+                    one_und(n, K, sd)
+
+    # sparse slice above the exhaustive grid (the models are polynomial): band boundaries, extremes, a middle value
+    big = [9, 10, 11, 12, 16, 33, 40] if ctx.thorough else [int(x) for x in r.choice([9, 10, 11, 12], 2, replace=False)] + [16, 33, 40]
+    for n in big:
+        D = ringD(n)
+        b1 = int((D == 1).sum())
+        cells = n * n - n
+        Ks = sorted(set([0, 1, b1 - 1, b1, b1 + 1, int(r.randint(b1 + 2, cells - 1)), cells - 1, cells]))
+        if not ctx.thorough and n >= 33:
+            Ks = sorted(set([b1 + 1, int(r.randint(b1 + 2, cells - 1)), cells - 1, cells]))
+        for K in Ks:
+            sd = seeds(1)[0]
+            one_dir(n, K, sd)
+            one_ring(n, K, sd, D)
+            Ku = K // 2
+            one_und(n, Ku, sd)
+    # n >= 128 (index dtypes): the ring is replayed in full; dir/und send the model only the K-prefix of the permutation it reads
+    for n in ((130, 150) if ctx.thorough else (int(r.choice([130, 150])),)):
+        D = ringD(n)
+        for K in (2 * n - 1, 2 * n + 7, int(r.randint(2 * n, 6 * n))):
+            one_ring(n, K, seeds(1)[0], D)
+        for K in (0, 1, int(r.randint(2, 200))):
+            sd = seeds(1)[0]
+            one_dir(n, K, sd, prefix=True)
+            one_und(n, K, sd, prefix=True)
+        for K in (n * n - n, n * n - n - 3):      # direct oracle only at full density (the permutation is too long to transmit)
+            rec = Rec(seeds(1)[0])
+            C = call(bct.makerandCIJ_dir, n, K, seed=rec, _t=30.0)
+            case = {'fn': 'makerandCIJ_dir', 'n': n, 'k': K, 'note': 'oracle only'}
+            ctx.case(case); ctx.count('rand_dir:n>8')
+            ctx.check(C.shape == (n, n) and is01(C) and int(C.sum()) == K and not np.any(np.diag(C)), 'makerandCIJ_dir:count',
+                      'large N: shape/binary/count/diagonal', case)
+            C = call(bct.makerandCIJ_und, n, K // 2, seed=rec, _t=30.0)
+            case = {'fn': 'makerandCIJ_und', 'n': n, 'k': K // 2, 'note': 'oracle only'}
+            ctx.case(case); ctx.count('rand_und:n>8')
+            ctx.check(C.shape == (n, n) and is01(C) and int(C.sum()) == 2 * (K // 2) and not np.any(np.diag(C)) and np.array_equal(C, C.T),
+                      'makerandCIJ_und:count', 'large N: shape/binary/count/diagonal/symmetry', case)
+
+    # int seed path (get_rng builds the RandomState itself): same matrix as with the recording RandomState
+    for fn, args in ((bct.makerandCIJ_dir, (6, 11)), (bct.makerandCIJ_und, (6, 7)), (bct.makeringlatticeCIJ, (7, 17))):
+        sd = seeds(1)[0]
+        A, B = call(fn, *args, seed=sd), call(fn, *args, seed=Rec(sd))
+        case = {'fn': fn.__name__, 'args': list(args), 'seed': sd}
+        ctx.case(case); ctx.count('seed:int')
+        if not np.array_equal(A, B):
+            ctx.mismatch(fn.__name__ + ':seed', 'seed=<int> and seed=<recording RandomState(int)> give different matrices', case)
 
     # ------------------------------------------------------------ hierarchical template + makeevenCIJ
-    for mx in (2, 3, 4):
-        lines.append('template %d' % mx); pend.append(('template', 'template', {'fn': 'template', 'mx': mx}, mx))
-    for n in ((4, 8, 16) if ctx.thorough else (4, 8)):
-        mx = n.bit_length() - 1
-        for sz in range(1, mx + 1):
+    def tpl_case(fn, mx, px):
+        """the template the implementation built (captured through the np proxy) against the model's"""
+        n = 2 ** mx
+        T = captured_template(px, n)
+        if T is None:
+            ctx.count('template:not-captured'); return
+        key = (fn, mx)
+        if key in tpl_seen:
+            if not np.array_equal(tpl_seen[key], T):
+                ctx.mismatch('template', 'the template of %s differs between two calls with the same mx_lvl' % fn, {'fn': fn, 'mx': mx})
+            return
+        tpl_seen[key] = np.array(T, copy=True)
+        ctx.count('template:captured')
+        lines.append('template %d' % mx); pend.append(('template', 'template', {'fn': fn, 'mx': mx}, (mx, tpl_seen[key])))
+    tpl_seen = {}
+
+    def one_even(n, K, sz, sd, ood=False):
+        rec = Rec(sd)
+        case = {'fn': 'makeevenCIJ', 'n': n, 'k': K, 'sz_cl': sz, 'seed': sd}
+        ctx.case(case, nontrivial=K > 0 and not ood); ctx.count('ood:even' if ood else 'even:n=%d' % n)
+        mx = n.bit_length() - 1 if n > 0 else 0
+        n2 = 2 ** mx
+        try:
+            (C, outp), px = with_np_proxy(bct.makeevenCIJ, n, K, sz, seed=rec)
+        except Exception as e:
+            if ood:
+                lines.append('even_z %d %d %d 0' % (n, K, sz)); pend.append(('optmat', 'makeevenCIJ', case, None)); return
+            ctx.fail('makeevenCIJ:raises', 'raised %r' % (e,), case); return
+        tpl_case('makeevenCIJ', mx, px)
+        C = np.asarray(C).astype(float)
+        rp = [e[3] for e in rec.log if e[0] == 'permutation']
+        if not ood:
             cl = np.array([[1 if i != j and blen(i ^ j) <= sz else 0 for j in range(n)] for i in range(n)])
             ncl = int(cl.sum())
+            ok = ctx.check(C.shape == (n, n), 'makeevenCIJ:shape', 'not N x N', case)
+            if ok:
+                ctx.check(is01(C), 'makeevenCIJ:binary', 'entries outside {0,1}', case)
+                ctx.check(not np.any(np.diag(C)), 'makeevenCIJ:diagonal', 'diagonal not empty', case)
+                ctx.check(np.all(C[cl == 1] == 1), 'makeevenCIJ:clusters', 'a cluster of size 2^sz_cl is not fully connected', case)
+                if K >= ncl:
+                    ctx.check(int(C.sum()) == K, 'makeevenCIJ:count', '%d connections instead of %d' % (int(C.sum()), K), case)
+                    ctx.count('even:K>=clusters')
+                    ctx.check(len(rp) == 1 and perm_ok(rp[0], n * n - n - ncl), 'stream:permutation',
+                              'even: the draw is not a permutation of the %d free cells' % (n * n - n - ncl), case)
+                else:   # documented: warning, clusters only
+                    ctx.check(np.array_equal(C, cl) and 'Warning' in outp, 'makeevenCIJ:clusters-only',
+                              'K below the cluster cells must give the clusters only (with a warning)', case)
+                    ctx.count('even:clusters_only')
+            lines.append('even %d %d %d %s' % (n, K, sz, enc_list(rp[0] if rp else []))); pend.append(('optmat', 'makeevenCIJ', case, C))
+        else:
+            if n2 != n and 'power of 2' not in outp:
+                ctx.mismatch('makeevenCIJ:warning', 'no warning for an N that is not a power of two', case)
+            if C.shape != (n2, n2):
+                ctx.mismatch('makeevenCIJ', 'shape %s, model says %d x %d' % (C.shape, n2, n2), case)
+            else:
+                lines.append('even_z %d %d %d %s' % (n, K, sz, enc_list(rp[0] if rp else []))); pend.append(('optmat', 'makeevenCIJ', case, C))
+
+    for n in ((4, 8, 16, 32) if ctx.thorough else (4, 8, 16)):
+        mx = n.bit_length() - 1
+        for sz in range(1, mx + 1):
+            ncl = n * (2 ** sz - 1)
             Ks = list(range(0, n * n - n + 1))
-            if n == 16:
-                Ks = sorted(set([0, ncl - 1, ncl, ncl + 1, n * n - n] + [int(x) for x in r.randint(0, n * n - n + 1, 40)]))
+            if n >= 16:
+                Ks = sorted(set([0, ncl - 1, ncl, ncl + 1, n * n - n] + [int(x) for x in r.randint(0, n * n - n + 1, 40 if ctx.thorough and n == 16 else 6)]))
             elif not ctx.thorough and n == 8:
-                Ks = sorted(set([0, ncl - 1, ncl, ncl + 1, n * n - n - 1, n * n - n] + [int(x) for x in r.randint(0, n * n - n + 1, 20)]))
+                Ks = sorted(set([0, ncl - 1, ncl, ncl + 1, n * n - n - 1, n * n - n] + [int(x) for x in r.randint(0, n * n - n + 1, 14)]))
             for K in Ks:
                 if K < 0 or K > n * n - n:
                     continue
-                for sd in seeds(max(1, nseeds // 2)):
-                    rec = Rec(sd)
-                    case = {'fn': 'makeevenCIJ', 'n': n, 'k': K, 'sz_cl': sz, 'seed': sd}
-                    ctx.case(case, nontrivial=K > 0); ctx.count('even:n=%d' % n)
-                    try:
-                        C, outp = quiet(bct.makeevenCIJ, n, K, sz, seed=rec)
-                    except Exception as e:
-                        ctx.fail('makeevenCIJ:raises', 'raised %r' % (e,), case); continue
-                    C = np.asarray(C).astype(float)
-                    ok = ctx.check(C.shape == (n, n), 'makeevenCIJ:shape', 'not N x N', case)
-                    if ok:
-                        ctx.check(is01(C), 'makeevenCIJ:binary', 'entries outside {0,1}', case)
-                        ctx.check(not np.any(np.diag(C)), 'makeevenCIJ:diagonal', 'diagonal not empty', case)
-                        ctx.check(np.all(C[cl == 1] == 1), 'makeevenCIJ:clusters', 'a cluster of size 2^sz_cl is not fully connected', case)
-                        if K >= ncl:
-                            ctx.check(int(C.sum()) == K, 'makeevenCIJ:count', '%d connections instead of %d' % (int(C.sum()), K), case)
-                            ctx.count('even:K>=clusters')
-                        else:   # documented: warning, clusters only
-                            ctx.check(np.array_equal(C, cl) and 'Warning' in outp, 'makeevenCIJ:clusters-only',
-                                      'K below the cluster cells must give the clusters only (with a warning)', case)
-                            ctx.count('even:clusters_only')
-                    rp = [e[3] for e in rec.log if e[0] == 'permutation']
-                    lines.append('even %d %d %d %s' % (n, K, sz, enc_list(rp[0] if rp else []))); pend.append(('optmat', 'makeevenCIJ', case, C))
+                for sd in seeds(nseeds if n <= 8 else max(1, nseeds // 3)):
+                    one_even(n, K, sz, sd)
+    # outside the documented domain: the model (even_z) mirrors the code; correspondence only
+    for (n, K, sz) in [(5, 6, 1), (6, 3, 2), (7, 12, 1), (12, 20, 1), (12, 56, 3), (9, 30, 2),                 # N not a power of two
+                       (8, 60, 4), (8, 70, 4), (8, 64, 5), (4, 3, 3), (8, 20, 0), (8, 20, -1), (4, 0, 0), (4, 12, -2),   # sz_cl > mx, <= 0
+                       (8, -3, 1), (8, -1, 3), (4, -5, 2), (8, 57, 1), (8, 60, 2), (4, 13, 1), (4, 99, 2),             # K < 0, K > cells
+                       (3, 2, 1), (2, 2, 1), (1, 0, 1), (0, 0, 1)]:                                                  # mx_lvl < 2
+        one_even(n, K, sz, seeds(1)[0], ood=True)
 
     # ------------------------------------------------------------ makefractalCIJ
-    for mx in ((2, 3, 4) if ctx.thorough else (2, 3)):
+    def one_fractal(mx, E, sz, sd, ood=False):
         n = 2 ** mx
-        for E in (1, 2, 3, 5):
-            for sz in range(1, mx + 1):
+        rec = Rec(sd)
+        case = {'fn': 'makefractalCIJ', 'mx_lvl': mx, 'E': E, 'sz_cl': sz, 'seed': sd}
+        ctx.case(case, nontrivial=not ood); ctx.count('ood:fractal' if ood else 'fractal:mx=%d' % mx)
+        top = mx - min(sz, 1) + 2              # largest exponent that can occur is mx - sz_cl + 1 (on the diagonal)
+        pw = [fq((1 / E ** np.array([float(e)]))[0]) for e in range(0, top + 1)]
+        try:
+            (res, _), px = with_np_proxy(bct.makefractalCIJ, mx, E, sz, seed=rec)
+            C, k = res
+        except Exception as e:
+            if ood:
+                lines.append('fractal %d %s %d 0' % (mx, enc_list(pw, enc_qb), sz)); pend.append(('fractal', 'makefractalCIJ', case, None)); return
+            ctx.fail('makefractalCIJ:raises', 'raised %r' % (e,), case); return
+        tpl_case('makefractalCIJ', mx, px)
+        ok = ctx.check(C.shape == (n, n), 'makefractalCIJ:shape', 'not 2^mx_lvl square', case)
+        if ok:
+            ctx.check(is01(C), 'makefractalCIJ:binary', 'entries outside {0,1}', case)
+            ctx.check(int(k) == int(np.count_nonzero(C)), 'makefractalCIJ:count', 'reports %s connections, matrix has %d' % (k, int(np.count_nonzero(C))), case)
+            ctx.check(not np.any(np.diag(C)), 'makefractalCIJ:diagonal', 'diagonal not empty', case)
+            if sz >= 1:
                 cl = np.array([[1 if i != j and blen(i ^ j) <= sz else 0 for j in range(n)] for i in range(n)])
-                for sd in seeds(nseeds * 2):
-                    rec = Rec(sd)
-                    case = {'fn': 'makefractalCIJ', 'mx_lvl': mx, 'E': E, 'sz_cl': sz, 'seed': sd}
-                    ctx.case(case, nontrivial=True); ctx.count('fractal:mx=%d' % mx)
-                    try:
-                        C, k = call(bct.makefractalCIJ, mx, E, sz, seed=rec)
-                    except Exception as e:
-                        ctx.fail('makefractalCIJ:raises', 'raised %r' % (e,), case); continue
-                    ok = ctx.check(C.shape == (n, n), 'makefractalCIJ:shape', 'not 2^mx_lvl square', case)
-                    if ok:
-                        ctx.check(is01(C), 'makefractalCIJ:binary', 'entries outside {0,1}', case)
-                        ctx.check(int(k) == int(np.count_nonzero(C)), 'makefractalCIJ:count', 'reports %s connections, matrix has %d' % (k, int(np.count_nonzero(C))), case)
-                        ctx.check(not np.any(np.diag(C)), 'makefractalCIJ:diagonal', 'diagonal not empty', case)
-                        ctx.check(np.all(C[cl == 1] == 1), 'makefractalCIJ:clusters', 'a cluster is not fully connected', case)
-                    smp = [e[3] for e in rec.log if e[0] == 'random_sample']
-                    pw = [fq((1 / E ** np.array([float(e)]))[0]) for e in range(0, mx + 1)]
-                    if len(smp) == 1:
-                        ctx.check(all(0 <= x < 1 for row in smp[0] for x in row), 'stream:random_sample', 'sample outside [0,1)', case)
-                        lines.append('fractal %d %s %d %s' % (mx, enc_list(pw, enc_qb), sz, enc_mat([[fq(x) for x in row] for row in smp[0]], enc_qb)))
-                        pend.append(('fractal', 'makefractalCIJ', case, (C, int(k))))
-                    else:
-                        ctx.mismatch('makefractalCIJ:stream', 'expected one random_sample((n,n)) draw', case)
+                ctx.check(np.all(C[cl == 1] == 1), 'makefractalCIJ:clusters', 'a cluster is not fully connected', case)
+        smp = [e[3] for e in rec.log if e[0] == 'random_sample']
+        if len(smp) == 1:
+            ctx.check(all(0 <= x < 1 for row in smp[0] for x in row), 'stream:random_sample', 'sample outside [0,1)', case)
+            lines.append('fractal %d %s %d %s' % (mx, enc_list(pw, enc_qb), sz, enc_mat(smp[0], enc_f)))
+            pend.append(('fractal', 'makefractalCIJ', case, (C, int(k))))
+        else:
+            ctx.mismatch('makefractalCIJ:stream', 'expected one random_sample((n,n)) draw', case)
+
+    for mx in ((2, 3, 4) if ctx.thorough else (2, 3)):
+        for E in (1, 2, 3, 5, 1.5, 0.5):
+            for sz in range(1, mx + 1):
+                for sd in seeds(nseeds * 2 if isinstance(E, int) else nseeds):
+                    one_fractal(mx, E, sz, sd)
+    for (mx, E, sz) in [(3, 2, 0), (3, 2, -1), (2, 3, -2), (3, 2, 4), (3, 2, 5), (2, 2, 3), (1, 2, 1), (0, 2, 1), (1, 3, 0)]:
+        one_fractal(mx, E, sz, seeds(1)[0], ood=True)
 
     # ------------------------------------------------------------ maketoeplitzCIJ
-    from scipy import linalg, stats
-    nt = ctx.scale(40, 300)
-    for t in range(nt):
-        n = int(r.randint(3, 9)); s = float(r.choice([1.0, 2.0, 4.0]))
-        K = int(r.randint(0, max(2, (n * n - n) // 3)))
-        sd = int(r.randint(1 << 30))
-        rec = Rec(sd)
+    budget = [ctx.scale(500000, 3000000)]          # sample entries sent to the model over the whole run
+
+    def one_toeplitz(n, K, s, sd, force_replay=False, ood=False):
+        rec = RecA(sd)
         case = {'fn': 'maketoeplitzCIJ', 'n': n, 'k': K, 's': s, 'seed': sd}
-        ctx.case(case, nontrivial=K > 0); ctx.count('toeplitz:n=%d' % n)
-        try:
-            C = call(bct.maketoeplitzCIJ, n, K, s, seed=rec, _t=20.0)
-        except BCTParamError:
-            ctx.count('toeplitz:unresolved'); continue
-        except Timeout:
-            ctx.count('toeplitz:timeout'); continue
-        except Exception as e:
-            ctx.fail('maketoeplitzCIJ:raises', 'raised %r' % (e,), case); continue
-        C = np.asarray(C).astype(float)
-        ok = ctx.check(C.shape == (n, n), 'maketoeplitzCIJ:shape', 'not N x N', case)
-        if ok:
-            ctx.check(is01(C), 'maketoeplitzCIJ:binary', 'entries outside {0,1}', case)
-            ctx.check(int(C.sum()) == K, 'maketoeplitzCIJ:count', '%d connections instead of %d' % (int(C.sum()), K), case)
-            ctx.check(not np.any(np.diag(C)), 'maketoeplitzCIJ:diagonal', 'diagonal not empty', case)
+        ctx.case(case, nontrivial=K > 0 and not ood); ctx.count('ood:toeplitz' if ood else ('toeplitz:n=%d' % n if n <= 12 else 'toeplitz:n>12'))
+        status, C = 0, None
+        with ScipyCapture() as cap:
+            try:
+                C = call(bct.maketoeplitzCIJ, n, K, s, seed=rec, _t=60.0)
+            except BCTParamError:
+                status = 1; ctx.count('toeplitz:raised')
+            except Timeout:
+                ctx.fail('maketoeplitzCIJ:timeout', 'did not return within 60 s', case); return
+            except Exception as e:
+                ctx.fail('maketoeplitzCIJ:raises', 'raised %r' % (e,), case); return
         smp = [e[3] for e in rec.log if e[0] == 'random_sample']
-        ctx.count('toeplitz:draws', len(smp))
-        if len(smp) <= 60:
-            # the same expressions as the implementation (numeric kernel, not modelled)
+        m = len(smp)
+        ctx.count('toeplitz:draws', m)
+        S = np.array(smp).reshape(m, n, n) if m else np.zeros((0, n, n))
+        ctx.check(bool(np.all((S >= 0) & (S < 1))), 'stream:random_sample', 'sample outside [0,1)', case)
+        # ---- the template the code built (lines 857-859)
+        if len(cap.tpl) == 1 and len(cap.pdf) == 1 and cap.tpl[0].shape == (n, n):
+            T, U, pf = cap.tpl[0], cap.unscaled[0], np.asarray(cap.pdf[0], dtype=float).ravel()
+            ctx.count('toeplitz:template-captured')
+        else:   # refactored source: fall back to the same expressions as the implementation
+            from scipy import linalg, stats
             pf = stats.norm.pdf(range(1, n), .5, s)
-            template = linalg.toeplitz(np.append((0,), pf), r=np.append((0,), pf))
-            template *= (K / np.sum(template))
-            lines.append('toeplitz %d %d %s %s' % (n, K, enc_mat([[fq(x) for x in row] for row in template], enc_qb),
-                                                 enc_list(smp, lambda S: enc_mat([[fq(x) for x in row] for row in S], enc_qb))))
-            pend.append(('optmat', 'maketoeplitzCIJ', case, C))
+            U = linalg.toeplitz(np.append((0,), pf), r=np.append((0,), pf))
+            T = U * (K / np.sum(U))
+            ctx.count('toeplitz:template-recomputed')
+        idx = np.abs(np.subtract.outer(np.arange(n), np.arange(n)))
+        col = np.append((0.,), pf)
+        if len(pf) == n - 1:
+            ctx.check(np.array_equal(U, col[idx]), 'maketoeplitzCIJ:template', 'unscaled template is not the Toeplitz matrix of (0, pdf(1..n-1))', case)
+        else:
+            ctx.mismatch('maketoeplitzCIJ:template', 'profile has %d values instead of n-1' % len(pf), case)
+        Tz = np.where(np.isnan(T), 0.0, T)          # nan (zero sum) compares False against every sample, like 0
+        row = Tz[0] if n else np.zeros(0)
+        ctx.check(np.array_equal(Tz, row[idx]) and bool(np.all(np.diag(Tz) == 0)), 'maketoeplitzCIJ:template',
+                  'scaled template is not symmetric Toeplitz with a zero diagonal', case)
+        if not ood and K > 0 and np.all(np.isfinite(T)):
+            ctx.check(abs(float(T.sum()) - K) <= 1e-9 * max(1, K), 'maketoeplitzCIJ:template', 'template sums to %r instead of K' % float(T.sum()), case)
+        # ---- direct oracle on the recorded stream: the first sample with exactly K ones is returned; a raise needs 10000 rejections
+        cnt = (S < T).sum(axis=(1, 2)) if m else np.zeros(0, dtype=int)
+        if status == 0:
+            C = np.asarray(C).astype(float)
+            ok = ctx.check(C.shape == (n, n), 'maketoeplitzCIJ:shape', 'not N x N', case)
+            if ok:
+                ctx.check(is01(C), 'maketoeplitzCIJ:binary', 'entries outside {0,1}', case)
+                ctx.check(int(C.sum()) == K, 'maketoeplitzCIJ:count', '%d connections instead of %d' % (int(C.sum()), K), case)
+                ctx.check(not np.any(np.diag(C)), 'maketoeplitzCIJ:diagonal', 'diagonal not empty', case)
+                if m:
+                    ctx.check(bool(np.all(cnt[:-1] != K)) and np.array_equal(C, (S[-1] < T).astype(float)), 'maketoeplitzCIJ:first-accepted',
+                              'the returned matrix is not the first sample with exactly K connections', case)
+                else:
+                    ctx.check(K == 0, 'maketoeplitzCIJ:first-accepted', 'returned without drawing although K != 0', case)
+        else:
+            ctx.check(m == 10001 and bool(np.all(cnt[:10000] != K)) and K != 0, 'maketoeplitzCIJ:raises-early',
+                      'BCTParamError after %d draws (10001 needed), %d of them had exactly K connections' % (m, int((cnt[:10000] == K).sum())), case)
+        # ---- replay into the model (profile = the captured scaled row, q = 1; position 0 is zeroed by the model itself)
+        if not np.array_equal(Tz, row[idx]):
+            return
+        size = m * n * n
+        if force_replay or (size <= 60000 and size <= budget[0]):
+            budget[0] -= size
+            ctx.count('toeplitz:replayed'); ctx.count('toeplitz:replayed_draws', m)
+            lines.append('toeplitz_pf %d %d %s 1 %s' % (n, K, enc_list([1.0] + [float(x) for x in row[1:]], enc_f),
+                                                        ' '.join([str(m)] + [enc_mat(X, enc_f) for X in S])))
+            pend.append(('toeplitz', 'maketoeplitzCIJ', case, (status, m, C)))
+            if len(pf) == n - 1 and n >= 2 and np.all(np.isfinite(T)) and (n, K, s) not in ttpl_seen and \
+                    (n <= 12 or ctx.thorough or n == 16) and len(ttpl_seen) < ctx.scale(24, 400):
+                ttpl_seen.add((n, K, s))
+                lines.append('toep_template %d %d %s' % (n, K, enc_list([1.0] + [float(x) for x in pf], enc_f)))
+                pend.append(('toep_template', 'maketoeplitzCIJ:template', case, T))
+        else:
+            ctx.count('toeplitz:oracle-only')
+    ttpl_seen = set()
+
+    nt = ctx.scale(60, 400)
+    for t in range(nt):
+        n = int(r.randint(2, 13)); s = float(r.choice([0.5, 1.0, 2.0, 4.0, 8.0]))
+        cells = n * n - n
+        # the loop terminates quickly only while no template entry has to exceed 1: about 2.5*n*s (all cells when s is wide)
+        hi = cells if s >= n / 2 else min(cells, int(2.2 * n * s))
+        if t % 6 == 0:
+            hi = cells                            # whole feasible range, whatever happens (may raise after 10001 draws)
+        K = int(r.randint(0, max(1, int(0.8 * hi)) + 1))
+        if t % 6 == 0 and n > 8:
+            n = int(r.randint(2, 9)); K = int(r.randint(0, n * n - n + 1))
+        one_toeplitz(n, K, s, int(r.randint(1 << 30)))
+    for n in ((16, 24, 40, 40) if not ctx.thorough else (16, 16, 24, 24, 33, 40, 40, 64)):
+        s = float(r.choice([2.0, 4.0]))
+        K = int(n * s * float(r.choice([0.5, 1.0, 1.5])))
+        one_toeplitz(n, K, s, int(r.randint(1 << 30)))
+    # forced raises, 10001 recorded draws each, replayed: an unreachable feasible K, K > cells, K < 0
+    one_toeplitz(3, 6, 0.25, int(r.randint(1 << 30)), force_replay=ctx.thorough)     # quick: direct oracle only (90000 sample entries)
+    one_toeplitz(2, 3, 1.0, int(r.randint(1 << 30)), force_replay=True, ood=True)
+    one_toeplitz(3 if ctx.thorough else 2, -1, 1.0, int(r.randint(1 << 30)), force_replay=True, ood=True)
+    one_toeplitz(1, 0, 1.0, int(r.randint(1 << 30)), ood=True)
 
     # ------------------------------------------------------------ makerandCIJdegreesfixed
-    nd = ctx.scale(300, 3000)
-    for t in range(nd):
-        n = int(r.randint(2, 9)); dens = float(r.choice([0.15, 0.3, 0.5, 0.7]))
-        A = (r.rand(n, n) < dens).astype(int); np.fill_diagonal(A, 0)
-        if t % 25 == 0:
-            A = np.ones((n, n), dtype=int) - np.eye(n, dtype=int)       # complete digraph: every cell forced
-        inv = A.sum(axis=0); outv = A.sum(axis=1)
-        sd = int(r.randint(1 << 30)); rec = Rec(sd)
-        case = {'fn': 'makerandCIJdegreesfixed', 'inv': inv.tolist(), 'outv': outv.tolist(), 'seed': sd}
-        k = int(inv.sum())
-        ctx.case(case, nontrivial=k > 0); ctx.count('degfixed:n=%d' % n)
+    def one_deg(inv, outv, sd, ood=False, aslist=False):
+        n = len(inv)
+        rec = Rec(sd)
+        case = {'fn': 'makerandCIJdegreesfixed', 'inv': [int(x) for x in inv], 'outv': [int(x) for x in outv], 'seed': sd}
+        k = int(np.sum(inv))
+        ctx.case(case, nontrivial=k > 0 and not ood); ctx.count('ood:degfixed' if ood else ('degfixed:n=%d' % n if n <= 8 else 'degfixed:n>8'))
         status, C = 0, None
+        a, b = (list(case['inv']), list(case['outv'])) if aslist else (np.array(inv).copy(), np.array(outv).copy())
         try:
-            C = call(bct.makerandCIJdegreesfixed, inv.copy(), outv.copy(), seed=rec, _t=20.0)
+            C = call(bct.makerandCIJdegreesfixed, a, b, seed=rec, _t=60.0)
         except BCTParamError:
             status = 1; ctx.count('degfixed:unresolved')
         except Timeout:
-            ctx.fail('makerandCIJdegreesfixed:timeout', 'did not return within 20 s', case); continue
+            ctx.fail('makerandCIJdegreesfixed:timeout', 'did not return within 60 s', case); return
+        except IndexError as e:
+            if not ood:
+                ctx.fail('makerandCIJdegreesfixed:raises', 'raised %r on a graphical degree pair' % (e,), case); return
+            status = 3
         except Exception as e:
-            ctx.fail('makerandCIJdegreesfixed:raises', 'raised %r on a graphical degree pair' % (e,), case); continue
-        if C is not None:
+            ctx.fail('makerandCIJdegreesfixed:raises', 'raised %r on a graphical degree pair' % (e,), case); return
+        if C is not None and not ood:
             ok = ctx.check(C.shape == (n, n), 'makerandCIJdegreesfixed:shape', 'not N x N', case)
             if ok:
                 ctx.check(is01(C), 'makerandCIJdegreesfixed:binary', 'entries outside {0,1}', case)
@@ -273,11 +561,68 @@ def run(ctx):
         ctx.count('degfixed:repair_draws', len(draws))
         if draws:
             ctx.count('degfixed:needed_repair')
-        if len(rp) == 1 and perm_ok(rp[0], k) and all(0 <= x < k for x in draws):
-            lines.append('degfixed %s %s %s %s' % (enc_list(inv), enc_list(outv), enc_list(rp[0]), enc_list(draws)))
+        if status == 3:
+            lines.append('degfixed_chk %s %s 0 0' % (enc_list(inv), enc_list(outv)))
+            pend.append(('degfixed', 'makerandCIJdegreesfixed', case, (status, C)))
+        elif len(rp) == 1 and perm_ok(rp[0], k) and all(0 <= x < k for x in draws):
+            lines.append('%s %s %s %s %s' % ('degfixed_chk' if ood else 'degfixed', enc_list(inv), enc_list(outv), enc_list(rp[0]), enc_list(draws)))
             pend.append(('degfixed', 'makerandCIJdegreesfixed', case, (status, C)))
         else:
             ctx.mismatch('makerandCIJdegreesfixed:stream', 'unexpected draw sequence', case)
+
+    nd = ctx.scale(300, 3000)
+    for t in range(nd):
+        n = int(r.randint(2, 9)); dens = float(r.choice([0.15, 0.3, 0.5, 0.7]))
+        A = (r.rand(n, n) < dens).astype(int); np.fill_diagonal(A, 0)
+        if t % 25 == 0:
+            A = np.ones((n, n), dtype=int) - np.eye(n, dtype=int)       # complete digraph: every cell forced
+        one_deg(A.sum(axis=0), A.sum(axis=1), int(r.randint(1 << 30)), aslist=(t % 40 == 7))
+    # sparse digraphs above the small grid; n >= 128 exercises the dtype of the stub arrays
+    for n in [int(x) for x in r.randint(9, 41, ctx.scale(6, 40))] + ([150, 130, 200] if ctx.thorough else [130]):
+        deg = (float(r.choice([1.0, 2.0, 3.0])) if ctx.thorough else 0.8) if n > 60 else float(r.choice([1.5, 3.0, 5.0]))
+        A = (r.rand(n, n) < deg / n).astype(int); np.fill_diagonal(A, 0)
+        one_deg(A.sum(axis=0), A.sum(axis=1), int(r.randint(1 << 30)))
+    # outside the documented domain: different sums (slices clamp / zero padding), non-graphical pairs, shorter outv
+    for t in range(ctx.scale(30, 200)):
+        n = int(r.randint(2, 7))
+        A = (r.rand(n, n) < 0.4).astype(int); np.fill_diagonal(A, 0)
+        inv, outv = A.sum(axis=0), A.sum(axis=1)
+        kind = t % 3
+        if kind == 0:
+            outv = outv.copy(); outv[int(r.randint(n))] += int(r.randint(1, 3))
+        elif kind == 1:
+            inv = inv.copy(); inv[int(r.randint(n))] += int(r.randint(1, 3))
+        else:
+            inv = r.permutation(inv)
+        one_deg(inv, outv, int(r.randint(1 << 30)), ood=True)
+    one_deg(np.array([1, 1, 1]), np.array([1, 1]), int(r.randint(1 << 30)), ood=True)
+    one_deg(np.array([1, 1, 1]), np.array([1, 1, 1, 0]), int(r.randint(1 << 30)), ood=True)
+    one_deg(np.array([3, 0, 0]), np.array([1, 1, 1]), int(r.randint(1 << 30)), ood=True)
+
+    # ------------------------------------------------------------ out-of-domain K for dir / und / ring (model: *_z)
+    for (n, K) in [(3, -2), (3, -9), (3, 9), (4, -1), (5, 23), (6, -29), (6, -31), (1, 1), (1, -1), (2, 5)]:
+        for fn, name, cells in ((bct.makerandCIJ_dir, 'rand_dir_z', n * n - n), (bct.makerandCIJ_und, 'rand_und_z', (n * n - n) // 2)):
+            sd = seeds(1)[0]; rec = Rec(sd)
+            case = {'fn': fn.__name__, 'n': n, 'k': K, 'seed': sd}
+            ctx.case(case, nontrivial=False); ctx.count('ood:' + name)
+            C = call(fn, n, K, seed=rec)
+            rp = [e[3] for e in rec.log if e[0] == 'permutation']
+            if len(rp) == 1 and perm_ok(rp[0], cells):
+                lines.append('%s %d %d %s' % (name, n, K, enc_list(rp[0]))); pend.append(('mat', fn.__name__, case, C))
+            else:
+                ctx.mismatch(fn.__name__ + ':stream', 'expected exactly one permutation draw', case)
+    for (n, K) in [(4, 13), (4, 16), (4, 20), (4, 21), (4, 30), (3, 7), (3, 8), (3, 13), (5, 21), (5, 28), (6, 31), (6, 40), (2, 3), (2, 4), (1, 1), (0, 0), (4, -1), (0, -2)]:
+        sd = seeds(1)[0]; rec = Rec(sd)
+        case = {'fn': 'makeringlatticeCIJ', 'n': n, 'k': K, 'seed': sd}
+        ctx.case(case, nontrivial=False); ctx.count('ood:ring_z')
+        try:
+            C = call(bct.makeringlatticeCIJ, n, K, seed=rec)
+            if np.any(C > 1):
+                ctx.count('ood:ring_entry_above_1')
+        except (IndexError, UnboundLocalError):
+            C = None
+        rp = [e[3] for e in rec.log if e[0] == 'permutation']
+        lines.append('ring_z %d %d %s' % (n, K, enc_list(rp[0] if rp else []))); pend.append(('optmat', 'makeringlatticeCIJ', case, C))
 
     # ------------------------------------------------------------ correspondence with the extracted Coq model
     res = run_model(ID, lines)
@@ -286,10 +631,30 @@ def run(ctx):
         if is_err(m):
             ctx.mismatch(fn + ':model-error', m['error'], case); continue
         if kind == 'template':
-            mx = impl; n = 2 ** mx
+            mx, T = impl; n = 2 ** mx
+            M = dec_mat(m).reshape(n, n)
+            if not np.array_equal(M, T):
+                ctx.mismatch('template', 'the hierarchical template the implementation built differs from the model', case, M, T)
             want = np.array([[0 if i == j else mx + 1 - blen(i ^ j) for j in range(n)] for i in range(n)], dtype=float)
-            if not np.array_equal(dec_mat(m), want):
-                ctx.mismatch('template', 'hierarchical template differs from mx+1-bitlength(i xor j)', case, dec_mat(m), want)
+            if not np.array_equal(M, want):
+                ctx.mismatch('template', 'hierarchical template differs from mx+1-bitlength(i xor j)', case, M, want)
+            continue
+        if kind == 'toep_template':
+            T = impl
+            M = np.array([[float(dec_q(x)) for x in row] for row in m], dtype=float).reshape(T.shape)
+            if not np.allclose(M, T, rtol=1e-9, atol=1e-300):
+                ctx.mismatch(fn, 'template of the implementation differs from (0,pf)-Toeplitz * K/sum of the model', case, M, T)
+            continue
+        if kind == 'toeplitz':
+            status, draws, C = impl
+            if m[0] != status:
+                ctx.mismatch(fn, 'model status %d (0 returns, 1 raises, 2 out of draws) / implementation %d' % (m[0], status), case)
+            elif dec_z(m[1][0]) != draws:
+                ctx.mismatch(fn, 'model counts %d iterations, the implementation drew %d samples' % (dec_z(m[1][0]), draws), case)
+            elif status == 0:
+                M = dec_mat(m[1][1]).reshape(C.shape)
+                if not np.array_equal(M, C):
+                    ctx.mismatch(fn, 'model and implementation differ on the replayed stream', case, M, C)
             continue
         if kind == 'mat':
             M = dec_mat(m).reshape(impl.shape)
@@ -306,9 +671,11 @@ def run(ctx):
                 ctx.mismatch(fn, 'model and implementation differ on the replayed stream', case, M, impl)
             continue
         if kind == 'fractal':
+            if m is None or impl is None:
+                if not (m is None and impl is None):
+                    ctx.mismatch(fn, 'model %s / implementation %s' % ('fails' if m is None else 'returns', 'fails' if impl is None else 'returns'), case)
+                continue
             C, k = impl
-            if m is None:
-                ctx.mismatch(fn, 'model fails, implementation returns', case); continue
             M = dec_mat(m[0]).reshape(C.shape)
             if not np.array_equal(M, C) or dec_z(m[1]) != k:
                 ctx.mismatch(fn, 'model and implementation differ on the replayed stream', case, [M, dec_z(m[1])], [C, k])
@@ -316,7 +683,7 @@ def run(ctx):
         if kind == 'degfixed':
             status, C = impl
             if m[0] != status:
-                ctx.mismatch(fn, 'model status %d (0 returns, 1 raises, 2 out of draws) / implementation %d' % (m[0], status), case)
+                ctx.mismatch(fn, 'model status %d (0 returns, 1 raises, 2 out of draws, 3 IndexError) / implementation %d' % (m[0], status), case)
             elif status == 0:
                 M = dec_mat(m[1]).reshape(C.shape)
                 if not np.array_equal(M, C):
